@@ -138,6 +138,9 @@ func (tr *Tr) freshValue(t types.Type, hint string, st *State) Value {
 
 // assumeTypeFacts emits the range/shape facts every well-typed Go value satisfies.
 func (tr *Tr) assumeTypeFacts(v Value, t types.Type, st *State) {
+	if hasBound(v) {
+		return
+	}
 	switch kindOf(t) {
 	case kBool:
 		return
@@ -172,7 +175,8 @@ func (tr *Tr) assumeTypeFacts(v Value, t types.Type, st *State) {
 			return
 		}
 		tr.typeFactDone[key] = true
-		tr.sc.fact(fmt.Sprintf("(and (<= 0 %s) (<= 0 %s) (<= 0 %s) (<= %s %s) (<= %s 4611686018427387904) (=> (= %s 0) (and (= %s 0) (= %s 0))))",
+		// A-arith: slice windows stay below 2^31 elements (assumption, listed in the evidence)
+		tr.sc.fact(fmt.Sprintf("(and (<= 0 %s) (<= 0 %s) (<= 0 %s) (<= %s %s) (<= %s 2147483648) (=> (= %s 0) (and (= %s 0) (= %s 0))))",
 			s.Arr, s.Off, s.Len, s.Len, s.Cap, sAdd(s.Off, s.Cap), s.Arr, s.Cap, s.Off))
 		if st != nil {
 			tr.sc.fact(sLt(s.Arr, st.top))
@@ -1004,4 +1008,23 @@ func (tr *Tr) runDefers(fr *Frame, st *State) {
 		d := fr.defers[i]
 		tr.execCall(fr, &d.Call, nil, st)
 	}
+}
+
+// hasBound reports whether a value mentions a quantifier-bound variable (such terms must not leak into global facts).
+func hasBound(v Value) bool {
+	switch x := v.(type) {
+	case Sc:
+		return strings.Contains(x.T, "?")
+	case Sl:
+		return strings.Contains(x.Arr+x.Off+x.Len+x.Cap, "?")
+	case If:
+		return strings.Contains(x.Tag+x.Val, "?")
+	case St:
+		for _, f := range x.F {
+			if hasBound(f) {
+				return true
+			}
+		}
+	}
+	return false
 }
